@@ -27,11 +27,17 @@ def run_divguard(ctx) -> RuleResult:
     seen = set()
     for path in ctx.paths_auto(module, func):
         for step in path:
-            for raw in step_exprs(step):
-                for node in ast.walk(raw):
-                    if not (isinstance(node, ast.BinOp) and isinstance(node.op, (ast.Div, ast.FloorDiv, ast.Mod))):
+            candidates = [n2 for raw in step_exprs(step) for n2 in ast.walk(raw)]
+            if step.kind == "stmt" and isinstance(step.node, ast.AugAssign):
+                candidates.append(step.node)  # x /= bound
+            for raw in [None]:
+                for node in candidates:
+                    if isinstance(node, ast.AugAssign) and isinstance(node.op, (ast.Div, ast.FloorDiv, ast.Mod)):
+                        right = step.expand(node.value)
+                    elif isinstance(node, ast.BinOp) and isinstance(node.op, (ast.Div, ast.FloorDiv, ast.Mod)):
+                        right = step.expand(node.right)
+                    else:
                         continue
-                    right = step.expand(node.right)
                     if "πbound" not in _txt(right):
                         continue
                     key = (id(node), id(step.facts))
@@ -73,7 +79,7 @@ def run_divguard(ctx) -> RuleResult:
                             derivation=trace))
     if n == 0:
         raise AnalysisError("cross_truncate: no division by the bound found (anchor changed)")
-    result.floor = 2
+    result.floor = 1
     return result
 
 
@@ -380,6 +386,22 @@ def run_clean(ctx) -> RuleResult:
     if not ok:
         result.add(Finding("R-CLEAN", module, "remove_redundant_coefficients", func,
                            "no fall-back to a single zero term when all terms are dropped", construct="zero fall-back"))
+    # clean_attributes rebuilds the polynomial in its own dtype (an empty coefficient list cannot carry it)
+    cfunc = ctx.repo.function(modname, "clean_attributes")
+    rebuilds = [c for c in calls_in(cfunc) if isinstance(c.func, ast.Attribute) and c.func.attr in ("from_attributes", "polynomial_from_attributes")]
+    if not rebuilds:
+        raise AnalysisError("clean_attributes: rebuilding constructor call not found")
+    for call in rebuilds:
+        dtype = kwarg(call, "dtype")
+        pname = cfunc.args.args[0].arg
+        ok = dtype is not None and U(dtype).endswith(".dtype") and pname in U(dtype)
+        result.ob("clean_attributes rebuilds with dtype=<poly>.dtype", ok, module.loc(call), U(dtype) if dtype is not None else "missing")
+        if not ok:
+            result.add(Finding(
+                "R-CLEAN", module, "clean_attributes", call,
+                f"clean_attributes rebuilds the polynomial {'without dtype=' if dtype is None else 'with dtype=' + U(dtype)[:40]}: the "
+                f"constructor then infers the dtype from the first coefficient, and falls back to int when there is none "
+                f"(zero-size results of +, -, cumsum, ...)", construct="clean_attributes: dtype"))
     # remove_redundant_names
     func = ctx.repo.function(modname, "remove_redundant_names")
     assigns = [n for n in ast.walk(func) if isinstance(n, ast.Assign) and isinstance(n.targets[0], ast.Name)
